@@ -29,6 +29,11 @@ class EdgeData(ElementBase):
         # what goes into blockMeshDict's edge definition
         return self.kind
 
+    def reversed(self) -> "EdgeData":
+        """Returns data that describes the same curve when the edge
+        is traversed from its other end; most kinds don't depend on direction"""
+        return self
+
 
 class Line(EdgeData):
     """A 'line' edge is created by default and needs no extra parameters"""
@@ -89,6 +94,9 @@ class Angle(EdgeData):
     def __init__(self, angle: float, axis: VectorType):
         self.angle = angle
         self.axis = Vector(f.unit_vector(axis))
+
+    def reversed(self) -> "Angle":
+        return Angle(-self.angle, self.axis.components)
 
     def translate(self, displacement):
         """Axis is not to be translated"""
@@ -172,6 +180,9 @@ class Spline(OnCurve):
     def __init__(self, points: PointListType):
         curve = DiscreteCurve(points)
         super().__init__(curve, n_points=len(points), representation=self.kind)
+
+    def reversed(self) -> "Spline":
+        return self.__class__(self.curve.discretize()[::-1])
 
     @property
     def parts(self):
